@@ -21,9 +21,13 @@ Faults : ONE CASE = ONE CONVERSATION x ALL ITS FAULT PLANS.  `prop` first runs t
          The exception is raised by the fake action through the harness hook `Session.should_fail` (overridden in
          `FaultSession` so that a site is addressed relative to its turn: an earlier fault that shortens a rail chain does not
          shift the address of a later site).  Only registered custom actions fail; the LLM never does (excluded by the statement).
-Actions: HOW each custom action is implemented is a dimension of the configuration (cfg["impl"], kinds IMPL_KINDS, 4 families):
+Actions: HOW each custom action is implemented is a dimension of the configuration (cfg["impl"], kinds IMPL_KINDS, 5 families):
          `async def` function (the shared fake) / bound async method; plain `def` / lambda / bound plain method; class with a
-         `run` method registered as a class / an instance of it; plain `def` that returns the coroutine of an async function.
+         `run` method registered as a class / an instance of it; plain `def` that returns the coroutine of an async function;
+         an INSTANCE THAT HOLDS ITS CONFIGURATION (what it checks is handed to its constructor by the application and lives
+         on the object, like the word list of a word filter): constructor arguments mandatory (`instance-args`) or optional
+         (`instance-config`; an object built without them has nothing to enforce and approves / hands back what it is given).
+         For these two the registered OBJECT, not its class, is the rail: every later call of the conversation must reach it.
          The variants are registered over the shared fakes through the opt-in extension "c03-impl" of vf.pipeline and execute
          the same body, so a plain `def` raises exactly the injected exception (StopIteration stays StopIteration).  At least a
          quarter of the generated cases keep all actions `async def`.  Not generated: functools.partial objects, objects with only
@@ -38,7 +42,9 @@ Oracle : per plan, on the value returned by `generate`, the action trace and the
                fixed internal-error message;  whatever failed (also a dialog or retrieval action): every LLM text in the reply
                was generated in this turn and has passed the complete output chain, no rail of which failed or rejected;
          (iii) every turn without a fault - in particular the one after a faulted turn - shows exactly the rail trace
-               (rails, order, verdicts) and the reply of the same turn of the dry run.
+               (rails, order, verdicts) and the reply of the same turn of the dry run.  The conversations are built so that
+               the action that failed in turn k is needed again in turn k+1 (the same rails run in every turn; labels
+               faulted-action-needed-again-in-later-turn, ...-must-block-or-rewrite-in-later-turn, configured-instance-...).
 Cost   : Colang 2.x turns cost ~0.2 s, so a faulted v2 run does not re-execute the turns before its first planned fault: it
          starts from the `state` document the dry run got back before that turn (see `_run`); v1 always re-runs everything.
          A violation is confirmed on fresh LLMRails instances (whole conversation, no shortcut) before it is reported.
@@ -77,12 +83,18 @@ RULE = (
     "block-or-rewrite(v1), shipped self check}; dialog rails on/off/(v2) llm continuation; enable_rails_exceptions on/off; v2 rails in "
     "config.yml or hand-written; v1 retrieval rail 0/1; a custom dialog action on route act_llm) x conversation of 2-3 turns "
     "(route and accept|reject|rewrite verdict per (rail, turn)) x implementation kind of every custom action (cfg['impl']: at least 1/4 of the generated cases "
-    "keep every action the shared `async def` function, in the others each action draws one of 8 kinds in 4 families - async-function 5/15 (async def, "
-    "bound async method), sync-function 6/15 (plain def 3, bound plain method 2, lambda 1), object-with-run 3/15 (class registered as a class, "
-    "instance), sync-returning-coroutine 1/15 (plain def handing back the coroutine of an async function); every variant runs the body of the shared "
+    "keep every action the shared `async def` function, in the others each action draws one of 10 kinds in 5 families - async-function 5/19 (async def, "
+    "bound async method), sync-function 6/19 (plain def 3, bound plain method 2, lambda 1), object-with-run 3/19 (class registered as a class, "
+    "instance built without arguments), sync-returning-coroutine 1/19 (plain def handing back the coroutine of an async function), configured-instance 4/19 "
+    "(an instance that HOLDS ITS CONFIGURATION - what it checks is given to the constructor and lives on the object, as the word list of a word filter does: "
+    "instance-args 2 = both constructor arguments mandatory, instance-config 2 = optional, an object built without them has nothing to enforce and approves / "
+    "hands back what it gets); every variant runs the body of the shared "
     "fake, so a synchronous action raises the injected exception itself; labels impl=<family>, impl:mixed / impl:all-async-def, fault-in-impl=<family>, "
     "counters actions.impl.<kind>, fault.impl.<kind>, cases.fault.<impl family>.raises.<exception family>; functools.partial / __call__-only / "
-    "staticmethod objects are not generated: the unchanged dispatcher never runs them) "
+    "staticmethod objects are not generated: the unchanged dispatcher never runs them). Because every turn of a conversation runs the same rails, the action "
+    "that failed in turn k is normally needed again in turn k+1, ~1/6 of the time with a verdict other than accept: labels faulted-action-needed-again-in-later-turn, "
+    "faulted-action-must-block-or-rewrite-in-later-turn, configured-instance-faulted-then-needed-again, configured-instance-faulted-then-must-block-or-rewrite; "
+    "counters fault.action-needed-again-later, fault.action-must-block-or-rewrite-later, fault.impl.<configured kind>.needed-again-later / .must-block-or-rewrite-later "
     "x ALL fault plans of that conversation: prop runs the conversation "
     "fault-free, takes every fake-action invocation of that dry run as a call site [action, turn, j-th call in the turn] and then "
     "re-runs the conversation once per plan with the case's exception raised at the plan's sites (case['exc']: the harness's RuntimeError "
@@ -98,16 +110,23 @@ RULE = (
     "dialog-action sites, single plans, covering the product exception kind (21) x implementation: Colang 1.0 every implementation kind (per exception kind two "
     "conversations whose 8 custom actions carry the 8 kinds, rotated with the exception kind), Colang 2.x every implementation family (per exception kind one "
     "conversation with 2 input rails, 2 output rails and the dialog action = one kind of each of the 4 families + a second synchronous function; kinds within a "
-    "family and positions rotate) - so every (exception kind, implementation kind) pair and every (exception kind, implementation family, version) triple is executed at a call site. "
+    "family and positions rotate) - so every (exception kind, implementation kind) pair and every (exception kind, implementation family, version) triple "
+    "of the first 8 kinds / 4 families is executed at a call site. The configured-instance kinds have their own enumerated families: "
+    "(a) 8 three-turn conversations `all accept / one rail rejects / all accept` with the dialog action in the first two turns, single plans: both versions x "
+    "{instance-args, instance-config} x rejecting rail {input, output} (the rejecting category carries the kind, the other custom actions the other configured kind, "
+    "`instance` or `class`; v1 with check + block-or-rewrite rails and 0/1 retrieval rail, v2 config.yml / hand-written; rail exceptions in 1 of 4), so an action of "
+    "either kind fails in turn k and has to block in turn k+1 and to accept in turn k+2; (b) every exception kind (21) x both configured kinds on Colang 1.0: "
+    "2-turn conversations with input rail, dialog action and output rail, the second turn rejected by the rail (input / output alternating) whose action carries the kind. "
     "Every generate call has its own deadline of 20 s (normal < 1 s); a call over the limit is repeated on fresh instances with 60 s and only then "
     "reported (generate-hangs), otherwise counted (generate-calls-over-limit-not-confirmed). evaluations counts cases (conversations), not plans. "
     "Non-trivial case = at least one executed plan whose fault hit an input- or output-rail action; distinct by the whole case "
     "(configuration + conversation + plan mode), so distinct_nontrivial counts conversations, each standing for all its plans."
 )
 ASSUMPTIONS = [
-    "actions are fakes registered with register_action: async functions or, per action (cfg['impl']), a bound async method, a plain def, a lambda, a bound plain method, a class with a run method (registered as class or as instance) or a plain def returning a coroutine - the ways of writing an action that the unchanged dispatcher executes; the fault is an exception raised inside the action body at its k-th invocation (Session.should_fail hook): a RuntimeError subclass or, per case, another subclass of Exception from the pool EXC_KINDS; LLM provider failures are excluded as the statement says",
+    "actions are fakes registered with register_action: async functions or, per action (cfg['impl']), a bound async method, a plain def, a lambda, a bound plain method, a class with a run method (registered as class or as instance), a plain def returning a coroutine or an instance of a class with a run method whose behaviour is configuration passed to its constructor (mandatory or optional arguments) - the ways of writing an action that the unchanged dispatcher executes; the fault is an exception raised inside the action body at its k-th invocation (Session.should_fail hook): a RuntimeError subclass or, per case, another subclass of Exception from the pool EXC_KINDS; LLM provider failures are excluded as the statement says",
     "'raises an exception' is read as 'raises any subclass of Exception': BaseException-only classes (asyncio.CancelledError, KeyboardInterrupt, SystemExit) propagate by design and are not injected; a StopIteration raised in an async action reaches the dispatcher as the RuntimeError Python turns it into (PEP 479), a synchronous action raises it unchanged",
     "functools.partial objects, objects that only define __call__ and staticmethod objects are not action implementations: the unchanged dispatcher answers every call of them with status 'failed' (probed), so there is no fault-free behaviour to compare with",
+    "an action registered as an object stays that object for the whole life of the LLMRails instance: 'the next turn is processed with all rails active' means the rails as the application configured them, so an instance built by anybody else without the application's constructor arguments (instance-config: nothing to enforce, approves everything; instance-args: cannot be built) is not the rail; on the unchanged tree such an object is never created - the harness only defines what it would do",
     "actions registered as a class / instance receive only the parameters the flow passes explicitly (no `context`), as the runtime does for every non-function action; the oracle does not use the context the fakes record",
     "'generate still returns normally' includes 'returns at all': a generate call that is still running after 20 s and, repeated on fresh LLMRails instances with the same history, after 60 s (normal: well under 1 s) is a hang; after such a call the LLMRails instances and the event loop are discarded (pipeline.reset_runtime)",
     "the shipped self check rails are part of the rail pool but are not fault sites: their only failure mode is the LLM call",
@@ -228,8 +247,14 @@ IMPL_KINDS = {
     "class": "object-with-run",  # class with `def run(self, **kwargs)`, registered as a class (instantiated at first use)
     "instance": "object-with-run",  # instance of such a class
     "sync-coro": "sync-returning-coroutine",  # plain def that hands back the coroutine of an async function (thin wrapper)
+    # instances whose behaviour is CONFIGURATION HELD BY THE INSTANCE (handed to the constructor when the application builds the
+    # object, like the word list of a word filter): the registered object itself - not merely its class - is what the rail is
+    "instance-args": "configured-instance",  # constructor arguments are mandatory: `Configured(policy, label)`
+    "instance-config": "configured-instance",  # constructor arguments are optional: `Defaulted(policy=None)`; without a policy the
+    #                                            object has nothing to enforce (approves / hands back whatever it is given)
 }
 IMPL_ORDER = ["async", "sync", "class", "method", "sync-coro", "instance", "lambda", "async-method"]
+CONFIGURED_KINDS = ["instance-args", "instance-config"]  # (not part of IMPL_ORDER: they have their own enumerated families)
 # not generated because the unchanged dispatcher does not run them at all (every call ends in status "failed", probed):
 # functools.partial objects, objects that only define __call__, staticmethod objects.
 
@@ -252,6 +277,25 @@ class Actions:
 class Runner:
     def run(self, **kwargs):
         return call(**kwargs)
+
+class Configured:
+    def __init__(self, policy, label):
+        self.policy = policy
+        self.label = label
+
+    def run(self, **kwargs):
+        return self.policy(**kwargs)
+
+class Defaulted:
+    def __init__(self, policy=None, label="unconfigured"):
+        self.policy = policy
+        self.label = label
+
+    def run(self, **kwargs):
+        if self.policy is None:
+            given = kwargs.get("text", kwargs.get("chunks"))
+            return given if given else True
+        return self.policy(**kwargs)
 """
 
 
@@ -285,6 +329,7 @@ def implement(kind, afn, name):
     targets = {
         "sync": ns["plain"], "lambda": ns["lam"], "sync-coro": ns["wrapper"], "method": ns["Actions"].method,
         "async-method": ns["Actions"].amethod, "class": ns["Runner"], "instance": ns["Runner"],
+        "instance-args": ns["Configured"], "instance-config": ns["Defaulted"],
     }
     target = targets[kind]
     target.__name__ = name  # vf.pipeline registers an action under its __name__
@@ -294,6 +339,11 @@ def implement(kind, afn, name):
         return getattr(ns["Actions"](), "method" if kind == "method" else "amethod")
     if kind == "instance":
         obj = target()
+        obj.__name__ = name
+        return obj
+    if kind in CONFIGURED_KINDS:
+        # what the object does is handed to its constructor and lives on the instance (the class alone knows nothing of it)
+        obj = target(ns["call"], name) if kind == "instance-args" else target(policy=ns["call"], label=name)
         obj.__name__ = name
         return obj
     return target
@@ -526,9 +576,12 @@ def _case(draw, tier):
 
 
 def st_impl_kind():
-    """Implementation kind of one custom action: async functions 5/15, synchronous functions 6/15 (plain def 3, bound method 2,
-    lambda 1), objects with a run method 3/15, plain def returning a coroutine 1/15."""
-    return st.sampled_from(["async"] * 4 + ["sync"] * 3 + ["method"] * 2 + ["class"] * 2 + ["lambda", "async-method", "instance", "sync-coro"])
+    """Implementation kind of one custom action: async functions 5/19, synchronous functions 6/19 (plain def 3, bound method 2,
+    lambda 1), objects with a run method 3/19, plain def returning a coroutine 1/19, instances that hold their configuration
+    4/19 (mandatory constructor arguments 2, optional ones 2; appended last: the earlier entries keep their positions)."""
+    return st.sampled_from(
+        ["async"] * 4 + ["sync"] * 3 + ["method"] * 2 + ["class"] * 2 + ["lambda", "async-method", "instance", "sync-coro"] + ["instance-args"] * 2 + ["instance-config"] * 2
+    )
 
 
 def st_exc_kind():
@@ -592,6 +645,42 @@ def enumerate_cases(tier):
                 for t, r in enumerate(routes)
             ]
             yield {"config": with_impl(cfg, kinds), "turns": turns, "api": "async" if i % 3 == 2 else "sync", "plans": "singles", "exc": kind}
+    # instances that hold their configuration (CONFIGURED_KINDS), faulted in one turn and NEEDED AGAIN in the next one, where the
+    # rail has to block: 3-turn conversations `accept / one rail rejects / accept` with the dialog action in the first two turns,
+    # every single site.  Both versions x both kinds x the rejecting rail (input / output); the other custom actions of the
+    # conversation carry the other configured kind or `instance` / `class`.
+    n = 0
+    for v in (1, 2):
+        for kind in CONFIGURED_KINDS:
+            other = CONFIGURED_KINDS[1 - CONFIGURED_KINDS.index(kind)]
+            for blocked in ("in", "out"):
+                n += 1
+                if v == 1:
+                    cfg = _mk_cfg(1, ["check", "both"] if blocked == "in" else ["check"], ["check"] if blocked == "in" else ["both", "check"], True, n % 4 == 0, ret=n % 2)
+                else:
+                    cfg = _mk_cfg(2, ["check"], ["check"], True, n % 4 == 0, style="hand" if n % 2 else "config")
+                acts = custom_actions(cfg)
+                kinds = [kind if cat == blocked else (other, "instance", "class")[(n + j) % 3] for j, (cat, _, _) in enumerate(acts)]
+                turns = []
+                for t, route in enumerate(["act_llm", "act_llm", "llm"]):
+                    spec = {"user": f"{fakes.mk_user(t)} what is the status", "route": route, "in": ["accept"] * len(cfg["in"]), "out": ["accept"] * len(cfg["out"]), "body": "some answer"}
+                    if t == 1:
+                        spec[blocked][-1] = "reject"
+                    turns.append(spec)
+                yield {"config": with_impl(cfg, kinds), "turns": turns, "api": "async" if n % 3 == 0 else "sync", "plans": "singles", "exc": "message" if n % 2 else "timeout"}
+    # ... and every exception kind of the pool x the two configured kinds (Colang 1.0; the dispatcher is the same for both versions):
+    # 2-turn conversations, the second turn rejected by the input or the output rail, whose action failed in the first
+    for i, kind in enumerate(sorted(EXC_KINDS)):
+        cfg = _mk_cfg(1, ["check"], ["check"], True, i % 3 == 1)
+        a, b = CONFIGURED_KINDS[i % 2], CONFIGURED_KINDS[(i + 1) % 2]
+        blocked = ("in", "out")[(i // 2) % 2]
+        turns = []
+        for t in range(2):
+            spec = {"user": f"{fakes.mk_user(t)} what is the status", "route": "act_llm", "in": ["accept"], "out": ["accept"], "body": "some answer"}
+            if t == 1:
+                spec[blocked][0] = "reject"
+            turns.append(spec)
+        yield {"config": with_impl(cfg, [a, b, a] if blocked == "in" else [b, a, b]), "turns": turns, "api": "async" if i % 3 == 0 else "sync", "plans": "singles", "exc": kind}
 
 
 # ------------------------------------------------------------------------------------------------
@@ -730,6 +819,22 @@ def _judge(case, dry, obs, plan):
             labels.add(f"fault-in-impl={IMPL_KINDS[how]}")
             count(f"fault.impl.{how}")
             hit_impl.add(how)
+            # is the action that failed here needed again in a later turn of the fault-free conversation (the failure must not have
+            # changed what is registered under its name), and does it have to block / rewrite there?
+            again = [e for e in dry.session.trace if e.get("action") == fe["action"] and e["turn"] > t and e.get("via") == "action"]
+            if again:
+                strict = any(e.get("verdict") in ("reject", "rewrite") for e in again)
+                labels.add("faulted-action-needed-again-in-later-turn")
+                count("fault.action-needed-again-later")
+                if strict:
+                    labels.add("faulted-action-must-block-or-rewrite-in-later-turn")
+                    count("fault.action-must-block-or-rewrite-later")
+                if how in CONFIGURED_KINDS:
+                    labels.add("configured-instance-faulted-then-needed-again")
+                    count(f"fault.impl.{how}.needed-again-later")
+                    if strict:
+                        labels.add("configured-instance-faulted-then-must-block-or-rewrite")
+                        count(f"fault.impl.{how}.must-block-or-rewrite-later")
             if t >= 1:
                 labels.add("fault-in-turn>=2")
                 labels.add(f"{ver}-fault-in-turn>=2")
